@@ -47,4 +47,5 @@ with open("/verif/seeded/RESULTS.md", "w") as f:
         r = prev[k]
         meta = json.load(open("/verif/seeded/%s/meta.json" % k))
         f.write("| %s | %s | %s | %s | %s |\n" % (k, r["property"], r["status"], "<br>".join(r.get("violations", [])[:3]).replace("|", "\\|"), (meta.get("needs") or "")[:160].replace("|", "\\|").replace("\n", " ")))
+sh("git checkout -- evidence", "/verif")
 print("written seeded/RESULTS.md")
